@@ -295,13 +295,13 @@ def isRead : Op → Bool
 /-- the whole operation in one section -/
 def whole (lk : Lock) (op : Op) : Prog Store String := Prog.atomic lk (fun s => Store.step s op)
 
-/-- memory backend: one `inner` section per method, except `save_message` (existence check under
-    the read lock, insertion under the write lock), `create_group_snapshot` (`inner.read` then
-    `group_snapshots.write`) and `rollback_group_to_snapshot` (`group_snapshots.write` then
-    `inner.write`) -/
+/-- memory backend: one `inner` section per method, except `create_group_snapshot` (`inner.read`
+    then `group_snapshots.write`) and `rollback_group_to_snapshot` (`group_snapshots.write` then
+    `inner.write`).  (`save_message` used to be check-then-act — existence check under the read
+    lock, insertion under the write lock; since /repo 6aa9b6e the check is inside the write-lock
+    section.  Should the source regress, `Generated.lockShape` changes and
+    `Props.C19.lockProg_follows_shape` no longer checks.) -/
 def memProg : Op → Prog Store String
-  | .saveMessage m =>
-    Prog.cta lkInnerR lkInnerW (exists? m.gid) "err" (fun s => ({ s with msgs := upsertMsg m s.msgs }, "ok"))
   | .snapCreate gid name ts =>
     .sec lkInnerR (fun s => s) (fun s =>
       let p := takeSnap s gid name ts
@@ -360,7 +360,7 @@ def lockProg : Backend → Op → Prog Store String
 
 /-- which operations are a single section on which backend (everything but the listed ones) -/
 def singleOp : Backend → Op → Bool
-  | .mem, .saveMessage _ | .mem, .snapCreate _ _ _ | .mem, .snapRollback _ _ | _, .updLast _ _ _ _ => false
+  | .mem, .snapCreate _ _ _ | .mem, .snapRollback _ _ | _, .updLast _ _ _ _ => false
   | .sql, .messages _ _ _ _ | .sql, .lastMessage _ _ | .sql, .relays _ | .sql, .replaceRelays _ _
   | .sql, .getSecret _ _ | .sql, .saveSecret _ _ _ => false
   | _, _ => true
